@@ -214,6 +214,7 @@ def run(ctx):
     ctx.guard("C16.R10", "documented template requirements", lambda: r10_documented_requirements(ctx))
     ctx.guard("C16.R9", "equal molecules", lambda: __import__("c20").equal_molecules(ctx, "C16.R9"))
     ctx.guard("C16.R11", "nested loops count their own passes", lambda: r11_nested_loops(ctx))
+    ctx.guard("C16.R13", "parameter schedules are wired to the state they are documented to drive", lambda: r13_schedules(ctx))
 
 
 def analyse_templates(ctx):
@@ -413,6 +414,35 @@ def r8_state_keys(ctx):
                               % (ff.get("name"), ty, wrong[0] if wrong else "", self_ty), loc=g.loc(t.get("line")))
     ctx.count("own_state_accesses", n)
     ctx.floor("C16.R8", "accesses to state keyed by the component's own type", n, 15)
+    # identifier agreement: code that is generic over an identifier `I` selects its state by I; a state type spelled with a
+    # CONCRETE identifier inside such code (`Evaluator<P>` = `Evaluator<P, Global>`) belongs to another instance
+    m = 0
+    acc_names = ACCESSORS + ("insert", "insert_default", "contains", "has", "holding", "require", "entry", "get_mut", "set_value")
+
+    def concrete_identifier(ty):
+        return isinstance(ty, str) and "mahf::identifier::" in ty and not ty.startswith("closure")
+    assert concrete_identifier("mahf::state::common::Evaluator<P, mahf::identifier::inner::Global>") and not concrete_identifier("mahf::state::common::Evaluator<P, I>")
+    for f in F.all_fns:
+        if "{closure" in f.key:
+            continue
+        idparams = [p_["self"] for p_ in (f.generics or {}).get("preds", []) if p_.get("trait") == "mahf::identifier::Identifier"]
+        if not idparams or not (f.impl_self_ty and "<" in f.impl_self_ty):
+            continue
+        for g in F.with_closures(f):
+            for bb, t in g.body.calls():
+                ff = t["f"]
+                if ff.get("name") not in acc_names or not ff.get("key", "").startswith("mahf::state::"):
+                    continue
+                tys = [ty for ty in (ff.get("gargs") or []) if isinstance(ty, str) and not ty.startswith("closure")]
+                if not any("<" in ty for ty in tys):
+                    continue
+                m += 1
+                wrong = [ty for ty in tys if concrete_identifier(ty)]
+                ctx.check(not wrong, "C16.R8", g.key, "own-identifier:" + (outer(wrong[0]).split("::")[-1] if wrong else ff.get("name")),
+                          "%s names %s inside code that is generic over the identifier %s: the state of the component's own identifier is %s"
+                          % (ff.get("name"), wrong[0] if wrong else "", idparams[0], "the one with " + idparams[0]), loc=g.loc(t.get("line")))
+    ctx.count("identifier_generic_state_accesses", m)
+    ctx.floor("C16.R8", "state accesses inside identifier-generic components", m, 25)
 
 
 # ------------------------------------------------------------------ R7: the components the templates are made of complete
@@ -546,3 +576,44 @@ def r11_nested_loops(ctx, rule="C16.R11"):
               detail="%d runs" % n, loc=cfgrun.loc())
     ctx.count("nested_loop_runs", n)
     ctx.floor(rule, "nested loop runs", n, 30)
+
+
+# template -> [(mapping component, state the schedule reads (None: in place), state it drives)], confirmed against the templates' documentation
+SCHEDULES = {
+    "mahf::heuristics::pso::real_pso": [("mahf::components::mapping::common::Linear", "mahf::state::common::Progress<mahf::lens::common::ValueOf<mahf::state::common::Iterations>>",
+                                          "mahf::components::swarm::pso::InertiaWeight<mahf::components::swarm::pso::ParticleVelocitiesUpdate")],   # inertia weight from start to end weight over the run
+    "mahf::heuristics::iwo::real_iwo": [("mahf::components::mapping::common::Polynomial", "mahf::state::common::Progress<mahf::lens::common::ValueOf<mahf::state::common::Iterations>>",
+                                          "mahf::components::mutation::MutationStrength<mahf::components::mutation::common::NormalMutation")],   # the mutation's standard deviation from initial to final deviation
+    "mahf::heuristics::sa::real_sa": [("mahf::components::mapping::sa::GeometricCooling", None, "mahf::components::replacement::sa::Temperature")],
+    "mahf::heuristics::sa::permutation_sa": [("mahf::components::mapping::sa::GeometricCooling", None, "mahf::components::replacement::sa::Temperature")],
+    "mahf::heuristics::fa::real_fa": [("mahf::components::mapping::sa::GeometricCooling", None, "mahf::components::swarm::fa::RandomizationParameter")],
+}
+
+
+def r13_schedules(ctx):
+    """the parameter schedules (mapping components) the templates wire in: each template contains exactly the listed
+    schedules, reading the loop progress and driving the state its documentation names - read off the instantiated lens
+    types of the mapping component the template builds (a schedule that drives another state leaves the documented
+    parameter constant and may push the other one out of its domain: a run that errs midway)"""
+    sums, fns, res, entered = analyse_templates(ctx)
+    seen = set()
+    for (tf, tree, full, w, final) in res:
+        if tree is None or tf.key not in SCHEDULES:
+            continue
+        seen.add(tf.key)
+        leaves = all_leaves(tree, [])
+        maps = [l for l in leaves if (l.ty or "").startswith("mahf::components::mapping::")]
+        want = SCHEDULES[tf.key]
+        got = [(l.ty, [g for g in (l.leaf.gargs or []) if isinstance(g, str)]) for l in maps]
+        good = len(maps) == len(want)
+        why = "contains the schedules %s" % got
+        if good:
+            for (ty, src, dst) in want:
+                hit = [ga for (t_, ga) in got if t_ == ty and any(dst in g for g in ga) and (src is None or any(src in g for g in ga))]
+                if len(hit) != 1:
+                    good = False
+                    why = "wires %s with lenses %s; expected it to read %s and drive %s" % (ty.split("::")[-1], [ga for (t_, ga) in got if t_ == ty], src or "(the driven state itself)", dst.split("::")[-1])
+                    break
+        ctx.check(good, "C16.R13", tf.key, "schedules-drive-their-documented-state", "%s %s" % (tf.key.split("::")[-1], why), detail=str(got)[:300], loc=tf.loc())
+    for k in sorted(set(SCHEDULES) - seen):
+        ctx.violation("C16.R13", k, "anchor", "template %s was not analysed" % k, kind="anchor-missing")
